@@ -325,6 +325,10 @@ def run_shard(item):
             ("enum-variable", "query($e: Color) { k @da(e: $e) }", {"e": "RED"}),
             ("id-int-literal", "{ k @da(id: 5) }", None),
             ("id-int-variable", "query($d: ID) { k @da(id: $d) }", {"d": 5}),
+            # several directives at one location: each hook gets its own arguments
+            ("two-directives-da-first", "query($s: Boolean = false) { k @da(i: 1, l: [2]) @skip(if: $s) @include(if: true) }", None),
+            ("two-directives-da-last", "query($i: Int = 3) { k @include(if: true) @skip(if: false) @da(i: $i, t: \"y\") }", None),
+            ("two-directives-da-middle", "{ k @include(if: true) @da(e: BLUE) @skip(if: false) }", None),
         ]
         dd = schema.directive("da")
         for way, text, raw in spellings:
@@ -341,7 +345,8 @@ def run_shard(item):
             exps = []
             for pol in C.Policy.all():
                 try:
-                    exps.append(C.freeze(C.coerce_arguments(schema, dd.args, located.operations[0].sel[0].dirs[0].args, vals, pol)))
+                    da_node = [d for d in located.operations[0].sel[0].dirs if d.name == "da"][0]
+                    exps.append(C.freeze(C.coerce_arguments(schema, dd.args, da_node.args, vals, pol)))
                 except C.ArgError:
                     exps.append(None)
             if len(got) != 1 or got[0] not in exps or resp.get("data") != {"k": 1}:
